@@ -26,20 +26,20 @@ const (
 func (r Result) String() string { return [...]string{"unsat", "sat", "unknown"}[r] }
 
 type Solver struct {
-	Kind      string // z3 | z3-new | cvc5
-	cmd       *exec.Cmd
-	in        io.WriteCloser
-	out       *bufio.Reader
-	defined   map[*sym.Term]bool // terms with a define-fun at run scope
-	declared  map[string]bool    // vars / ufs declared at run scope
-	Queries   int
-	Time      time.Duration
-	Errors    int
-	LastError string
-	log       io.Writer
-	TimeoutMs int
-	depth     int
-	UseNRA    bool // real arithmetic present: use the nlsat tactic (z3's incremental core is weak on NRA)
+	Kind         string // z3 | z3-new | cvc5
+	cmd          *exec.Cmd
+	in           io.WriteCloser
+	out          *bufio.Reader
+	defined      map[*sym.Term]bool // terms with a define-fun at run scope
+	declared     map[string]bool    // vars / ufs declared at run scope
+	Queries      int
+	Time         time.Duration
+	Errors       int
+	LastError    string
+	log          io.Writer
+	TimeoutMs    int
+	depth        int
+	UseNRA       bool // real arithmetic present: use the nlsat tactic (z3's incremental core is weak on NRA)
 	NRAFallbacks int
 	ModelTime    time.Duration
 	Dead         bool // the solver stopped answering and was killed: its state is lost
